@@ -385,19 +385,21 @@ theorem layout_action_spaceOrIndent (tl f ind acc : Bool) :
     Brk.action .spaceOrIndent tl f ind acc = (if tl then .newlineIndent else .space) := by
   cases tl <;> cases f <;> cases ind <;> cases acc <;> rfl
 
-/-- … but `SpaceOrReturn` (between `from x` and `import y`) in a group that is force-broken without
-being too long emits `group_start_indent` with NO line break in front — at column 0 nothing at all:
-`from` `abcd`·`import` `x` would be glued (`abcdimport`). Latent: no unchanged code path was found
-that puts a forcing break into an Import group (a prototype repair of F-C11-10 did, and produced
-`from numberimport pi`). -/
-theorem layout_action_spaceOrReturn_witness :
-    (∀ ind acc, Brk.action .spaceOrReturn false true ind acc = .returnOnly)
+/-- … and so does `SpaceOrReturn` (between `from x` and `import y`) since /repo 506c2fd: line break
+and return to the start column when the line is too long, a space otherwise — in every flag
+combination. Before that commit `needs_return` answered `true` for it, so a group that was
+force-broken without being too long got `group_start_indent` with NO line break in front (nothing at
+column 0): `from # c` / `  foo import bar` became `fooimport` (F-C11-14; the model had the defect as
+a theorem before the live path was found). Regression: `from abcd`·`import x` with a forced break now
+renders 16 = 4+1+4+1+6 columns wide. -/
+theorem layout_action_spaceOrReturn_fixed :
+    (∀ tl f ind acc, Brk.action .spaceOrReturn tl f ind acc = (if tl then .newline else .space))
       ∧ renderGroupLines { lineLen := 100, indentWidth := 2 }
           (.cons (.str 4 []) (.cons (.brk .spaceOrIndent) (.cons (.str 4 []) (.cons (.brk .spaceOrReturn)
             (.cons (.str 6 []) (.cons (.brk .indentedBreak) (.cons (.str 1 []) .nil)))))))
-          false 0 = some [15, 3] := by
+          false 0 = some [16, 3] := by
   constructor
-  · intro ind acc; cases ind <;> cases acc <;> rfl
+  · intro tl f ind acc; cases tl <;> cases f <;> cases ind <;> cases acc <;> rfl
   · decide
 
 /-- first pass / second pass actions agree for the builder's upgrades when the group is not indented:
